@@ -1,4 +1,23 @@
 import Driver.C01
+import Driver.C02
+import Driver.C03
+import Driver.C04
+import Driver.C05
+import Driver.C06
+import Driver.C07
+import Driver.C08
+import Driver.C09
+import Driver.C10
+import Driver.C11
+import Driver.C12
+import Driver.C13
+import Driver.C14
+import Driver.C15
+import Driver.C16
+import Driver.C17
+import Driver.C18
+import Driver.C19
+import Driver.C20
 /-!
 Line-protocol driver: one request per line (`<property> <op> <args…>`), one answer per line.
 Imports only the import-free `DeapModel.Core` models, so it links as a compiled executable.
@@ -7,6 +26,25 @@ Imports only the import-free `DeapModel.Core` models, so it links as a compiled 
 def dispatch (line : String) : String :=
   match (line.trimAscii.toString.splitOn " ") with
   | "C01" :: rest => DriverC01.handle rest
+  | "C02" :: rest => DriverC02.handle rest
+  | "C03" :: rest => DriverC03.handle rest
+  | "C04" :: rest => DriverC04.handle rest
+  | "C05" :: rest => DriverC05.handle rest
+  | "C06" :: rest => DriverC06.handle rest
+  | "C07" :: rest => DriverC07.handle rest
+  | "C08" :: rest => DriverC08.handle rest
+  | "C09" :: rest => DriverC09.handle rest
+  | "C10" :: rest => DriverC10.handle rest
+  | "C11" :: rest => DriverC11.handle rest
+  | "C12" :: rest => DriverC12.handle rest
+  | "C13" :: rest => DriverC13.handle rest
+  | "C14" :: rest => DriverC14.handle rest
+  | "C15" :: rest => DriverC15.handle rest
+  | "C16" :: rest => DriverC16.handle rest
+  | "C17" :: rest => DriverC17.handle rest
+  | "C18" :: rest => DriverC18.handle rest
+  | "C19" :: rest => DriverC19.handle rest
+  | "C20" :: rest => DriverC20.handle rest
   | ["ping"] => "pong"
   | _ => "bad-op"
 
